@@ -156,6 +156,14 @@ def check_forms(rec, words, label):
             if not (a == b) or a != b or hash(a) != hash(b):
                 rec.violation('same-entity-unequal', f'{label}: form {str(a)!r} of {w_.id} obtained twice: == {a == b}, != {a != b}')
                 break
+    # tags are values as well: equal iff same tag and same category
+    tags = [t_ for f in forms for t_ in f.tags()][:60]
+    for a, b in itertools.combinations(tags, 2):
+        rec.event('identity.tag-pairs')
+        if (a == b) != ((a.tag, a.category) == (b.tag, b.category)) or (a == 'x') is True:
+            rec.violation('different-entities-equal' if a == b else 'same-entity-unequal',
+                          f'{label}: tags ({a.tag!r}, {a.category!r}) and ({b.tag!r}, {b.category!r}): == gives {a == b}')
+            break
     # ... and forms that differ in text or script are different, under == and under != (whether two stored forms with the
     # same text and script in different words count as equal is left open: Form is a str value)
     for a, b in itertools.combinations(forms, 2):
